@@ -17,7 +17,7 @@
    adaptation field incl. its length byte), n (payload bytes), kind, ver]. *)
 EXTENDS Integers, Sequences, FiniteSets, TLC, Json
 CONSTANTS PIDS,        \* explicit PIDs callers use
-          RESV,        \* explicit PIDs callers try that are reserved for PSI/SI (below 0x20) or wider than 13 bits: refused
+          RESV,        \* explicit PIDs callers try that are reserved for PSI/SI (below 0x20), the null PID or wider than 13 bits: refused
           Period,      \* tables retransmit period
           MaxOps,      \* history bound
           Dev,         \* deviations present
